@@ -1,15 +1,21 @@
 (* C01 - Linearization preserves the feasible set.  Statements, `exact`, Print Assumptions only.
-   STATUS: the full projection theorem is PROVED END TO END FOR THE AFFINE FRAGMENT (C01_projection_affine,
-   C01_projection_affine_statement_form): for a model whose constraints are affine after the pre-processing rewrites,
-   through every stage of `compile` - domain tightening, flatten / simplify, the logic-constraint test,
-   Exp::linearize, the main loop with its step bound, row-name de-duplication, variable sorting, coefficient
-   extraction, published domains.  For models with non-affine constraints (abs, min, max, logic) the statement below is
-   the target; machine-checked for them are the *_partial theorems (every lowering arm's row pattern in both
-   directions, the soundness of all facts the rewrites rely on, the frame property of the main loop). *)
+   STATUS: the full projection theorem is PROVED END TO END
+   (1) FOR THE AFFINE FRAGMENT (C01_projection_affine, C01_projection_affine_statement_form): for a model whose
+       constraints are affine after the pre-processing rewrites, through every stage of `compile` - domain tightening,
+       flatten / simplify, the logic-constraint test, Exp::linearize, the main loop with its step bound, row-name
+       de-duplication, variable sorting, coefficient extraction, published domains;
+   (2) FOR THE ARITHMETIC-WITH-ABS FRAGMENT (C01_projection_abs): constraints and objective built from + - * /
+       (by constants), unary minus and abs(.) nested to any depth.  Here the compiler creates auxiliary variables
+       ($abs_k, $abs_k_positive), pushes one-sided or big-M rows back into its queue and relies on the bound analysis
+       (whose box must be, and is proved to be, implied by the domains the compiler emits); the statement is a genuine
+       projection: extensions on the auxiliary names exist in one direction and are forgotten in the other.
+   For models with min, max or logic nodes the statement below is the target; machine-checked for them are the
+   *_partial theorems (every lowering arm's row pattern in both directions, the soundness of all facts the rewrites
+   rely on, the frame property of the main loop). *)
 From Coq Require Import QArith Reals List String.
 From Rooc Require Import Base.XQ Model.Exp Model.Sem Model.Bounds Model.Linearize Model.Spec
   Proof.BoundsOfSound Proof.PropagateSound Proof.PublishedCompile Proof.LinAffine Proof.ArmLemmas
-  Proof.SimplifyMain Proof.FlattenSound Proof.LinFrame Proof.CompileAffine.
+  Proof.SimplifyMain Proof.FlattenSound Proof.LinFrame Proof.CompileAffine Proof.CompileAbs.
 Import ListNotations.
 Local Close Scope Q_scope.
 Local Open Scope R_scope.
@@ -41,6 +47,42 @@ Theorem C01_projection_affine_statement_form :
 Proof. intros m L AM HC. exact (compile_affine_projection m L (declared_used m) AM HC). Qed.
 Theorem C01_projection_affine_nonvacuous : affine_model m0 /\ exists L, compile m0 = inr L.
 Proof. split; [exact m0_affine|exact m0_compiles]. Qed.
+
+(* ---- proved end to end on the arithmetic-with-abs fragment.  abs_model m: well-formed domains, every declared variable
+   used, declared bounds not NaN and integer ranges within i32, sides and objective total arithmetic with abs over declared
+   names, and the trace condition compile_trace m = true: the objective and every constraint the main loop takes from
+   its queue (source constraints and the rows the abs arm pushed back) is not an assertion, is not taken by the
+   logic-constraint test and, once rewritten by flatten / simplify, has only arithmetic and abs nodes over names declared
+   so far.  abs_modelb decides abs_model and is evaluated on every tied model. *)
+Theorem C01_projection_abs :
+  forall (m : model) (L : linmodel), abs_model m -> compile m = inr L ->
+    forall rho : string -> R,
+      (exists rho', agree_on (declared_used m) rho rho' /\ sat_model m rho')
+      <-> (exists sigma, agree_on (declared_used m) rho sigma /\ sat_linear L sigma).
+Proof. intros m L BM HC. exact (compile_abs_projection_used m L BM HC). Qed.
+(* both halves separately, with the objective: what a point of the compiled model says about the source, and how a
+   source point extends *)
+Theorem C01_abs_both_directions :
+  forall (m : model) (L : linmodel), abs_model m -> compile m = inr L ->
+    (forall sigma, sat_linear L sigma ->
+       sat_model m sigma /\ forall v, ev sigma (m_obj m) = Some v -> rel (req_of_dir (m_dir m)) (lin_objective L sigma) v) /\
+    (forall rho v, sat_model m rho -> ev rho (m_obj m) = Some v ->
+       exists sigma, agree_on (map fst (m_domain m)) rho sigma /\ sat_linear L sigma /\ lin_objective L sigma = v).
+Proof. exact compile_abs_equiv. Qed.
+Theorem C01_abs_decidable_premise : forall m, abs_modelb m = true -> abs_model m.
+Proof. exact abs_modelb_sound. Qed.
+(* the premises are met by a model with nested abs in a >= row, in a <= row and in a minimised objective, which is not
+   affine and compiles to more variables than it declares *)
+Theorem C01_projection_abs_nonvacuous :
+  abs_model m1 /\ affine_modelb m1 = false /\ exists L, compile m1 = inr L /\ (List.length (lm_vars L) > 2)%nat.
+Proof. split; [exact m1_abs_model|split; [exact m1_not_affine|exact m1_compiles]]. Qed.
+(* one call of Exp::linearize on this fragment, at any state satisfying the invariant: the specification that the
+   induction carries (auxiliaries fresh, queue and rows only grow, the context is finite, over declared names, related to
+   the value as the requirement says, and every point of the old state extends to the new one with the exact value) *)
+Theorem C01_linearize_abs_spec :
+  forall n e r s c s', okexp e = true -> INV s -> incl (xvars e) (keys s) -> tot e ->
+    lin n e r s = inr (c, s') -> lin_spec e r s c s'.
+Proof. exact lin_ok. Qed.
 
 (* ---- proved: affine stage.  On the affine fragment Exp::linearize emits no row, declares no variable and
    returns a context whose value equals the expression's value at every real assignment. *)
@@ -104,6 +146,8 @@ Theorem C01_frame_partial : forall fuel, pres (main_loop fuel).
 Proof. exact pres_main_loop. Qed.
 
 Print Assumptions C01_projection_affine.
+Print Assumptions C01_projection_abs.
+Print Assumptions C01_abs_both_directions.
 Print Assumptions C01_affine_partial.
 Print Assumptions C01_relied_bounds_partial.
 Print Assumptions C01_abs_exact_partial.
